@@ -49,6 +49,7 @@ class World:
         self.open_failure = False  # bool | symbolic: open() of an existing node raises (EACCES, EBUSY, ...)
         self.havoc = None  # callable(datain) -> None: the device writes into the data-in buffer
         self.handles = []
+        self.created = []  # paths that open() created because they did not exist (regular files, never device nodes)
         self.all_present = False  # every path names an existing node (used where the file system is not the subject)
 
     # ---- operating system
@@ -60,8 +61,14 @@ class World:
             self.trace.append(("open", path, mode, buffering, h))
             return h
         if not self.present.get(path, self.all_present):
-            self.trace.append(("open-failed", path, mode, buffering))
-            raise FileNotFoundError(2, "No such file or directory", path)
+            if not any(c in mode for c in "wax"):
+                self.trace.append(("open-failed", path, mode, buffering))
+                raise FileNotFoundError(2, "No such file or directory", path)
+            # "w" / "a" / "x" modes CREATE a missing path: an empty regular file, not a device node
+            self.created.append(path)
+            self.present[path] = True
+            self.inode[path] = 900001 + len(self.created)
+            self.trace.append(("created", path, mode))
         if bool(self.open_failure):
             self.trace.append(("open-failed", path, mode, buffering))
             raise PermissionError(13, "Permission denied", path)
